@@ -12,7 +12,17 @@
 //          granule = 1 sample; `decim` samples for FIRDecimator / FIRRateConverter / FIRResampler; FftFilter is fed
 //          arbitrary frames and its (block-wise) outputs are compared as concatenations.  After the last frame the
 //          observable state (`coeffs()` of LMS/RLS) is appended to both sides.
-//          keys  C06:<processor>:framing   C06:<processor>:independence
+//            (d) COPIES of every processor (object lifetime): copy-construction, copy-assignment over a live object, an element
+//                of std::vector<P>(n, obj), pass-by-value + move, a copy that is destroyed -- taken from a fresh prototype or
+//                mid-stream, then used interleaved with their source: each copy must emit what a separately constructed
+//                object emits after the same prefix, and the source must continue as if never copied;
+//            (e) LARGE frames arriving after smaller ones on the same object: 20000, 70000, 140000 samples (thorough: also
+//                2^14, 2^14+1, 2^15+1, 2^16, 2^16+1, 2^17, 2^17+1, 49152, 98304, 147456, decreasing orders);
+//            (f) inputs and coefficient vectors at the absolute scale classes 1e-300, 1e-17, 2^-60, 1e-8, 1, 1e8, 2^60, 1e100,
+//                and inputs with runs of exact zeros (+0 / -0) longer than the memory of the processor;
+//            (g) REJECTED calls between the frames (frame not a multiple of decim_rate(); len(x) != len(d)): a call that
+//                throws must leave no trace in the later outputs.
+//          keys  C06:<processor>:framing   C06:<processor>:independence   C06:<processor>:copy   C06:<processor>:failed-call
 // CORR   : `C frame|frameF|frameR <proc> <params…> <k> <sizes…> <N> <input…> | <N'> <concatenated output…>` — the Lean
 //          driver runs the MODEL's `process` frame by frame (Model/Fir, Resample, Dynamics, Adaptive, Order, Framing).
 #include "common.hpp"
@@ -53,7 +63,57 @@ template<class T> static std::string toks(const base_array<T>& a) { return vh::h
 struct Inst {
     std::function<void(const double*, int, VD&)> run;   // one `process` call on `nitems` input items; appends the output
     std::function<void(VD&)> fin;                        // observable state after the last call (may be empty)
+    // a COPY of the underlying object (with its current state): mode 0 copy-construction, 1 copy-assignment over a separately
+    // constructed object that has already processed `njunk` items (falls back to 0 if the class is not assignable), 2 an element
+    // of std::vector<P>(2, obj) (the vector is destroyed), 3 passed by value and moved
+    std::function<Inst(int, const double*, int)> clone;
+    std::function<bool(const double*, int)> bad;         // an INVALID call on `n` items (may be empty): true if it threw
 };
+// how to drive an object of class P
+template<class P> struct Kit {
+    std::function<std::shared_ptr<P>()> fresh;                    // a newly constructed object with the same parameters
+    std::function<void(P&, const double*, int, VD&)> run;
+    std::function<void(P&, VD&)> fin;
+    std::function<void(P&, const double*, int)> bad;
+};
+template<class P> static Inst wrap(std::shared_ptr<P> f, std::shared_ptr<Kit<P>> k) {
+    Inst I;
+    I.run = [f, k](const double* p, int n, VD& o) { k->run(*f, p, n, o); };
+    if (k->fin) I.fin = [f, k](VD& o) { k->fin(*f, o); };
+    I.clone = [f, k](int mode, const double* junk, int njunk) -> Inst {
+        std::shared_ptr<P> g;
+        if (mode == 1) {
+            if constexpr (std::is_copy_assignable<P>::value) {
+                g = k->fresh();
+                VD tmp;
+                if (njunk > 0) k->run(*g, junk, njunk, tmp);
+                *g = *f;
+            }
+        }
+        if (mode == 2) {
+            std::vector<P> v(2, *f);
+            g = std::make_shared<P>(v[1]);
+        }
+        if (mode == 3) {
+            auto byval = [](P q) { return q; };
+            g = std::make_shared<P>(byval(*f));
+        }
+        if (!g) g = std::make_shared<P>(*f);
+        return wrap<P>(g, k);
+    };
+    if (k->bad)
+        I.bad = [f, k](const double* p, int n) {
+            try { k->bad(*f, p, n); } catch (const std::exception&) { return true; }
+            return false;
+        };
+    return I;
+}
+template<class P, class FR, class RN> static Inst build(FR fresh, RN run, std::function<void(P&, VD&)> fin = nullptr,
+                                                      std::function<void(P&, const double*, int)> bad = nullptr) {
+    auto k = std::make_shared<Kit<P>>();
+    k->fresh = fresh; k->run = run; k->fin = fin; k->bad = bad;
+    return wrap<P>(k->fresh(), k);
+}
 struct Spec {
     std::string proc;    // C06:<proc>:framing
     std::string js;      // json fragment: parameters
@@ -77,8 +137,8 @@ template<class T> static Spec spec_fir(const base_array<T>& h) {
     s.corr = std::string("frame ") + (cx ? "firC " : "firR ") + toks(h);
     s.win = TW<T>::W; s.mem = std::max(1, h.size() - 1); s.cstride = -1;
     s.make = [h]() {
-        auto f = std::make_shared<FirFilter<T>>(h);
-        return Inst{[f](const double* p, int n, VD& o) { put<T>(o, f->process(mk<T>(p, n))); }, nullptr};
+        return build<FirFilter<T>>([h]() { return std::make_shared<FirFilter<T>>(h); },
+                                   [](FirFilter<T>& f, const double* p, int n, VD& o) { put<T>(o, f.process(mk<T>(p, n))); });
     };
     return s;
 }
@@ -92,8 +152,8 @@ template<class T> static Spec spec_fft(const base_array<T>& h) {
     s.mem = FftFilter(h).block_size();
     s.fineq = 2; s.cstride = -1;   // > 1: the fine enumeration uses coarse granules spanning ~3.4 blocks (see sweep)
     s.make = [h]() {
-        auto f = std::make_shared<FftFilter>(h);
-        return Inst{[f](const double* p, int n, VD& o) { put<T>(o, f->process(mk<T>(p, n))); }, nullptr};
+        return build<FftFilter>([h]() { return std::make_shared<FftFilter>(h); },
+                                [](FftFilter& f, const double* p, int n, VD& o) { put<T>(o, f.process(mk<T>(p, n))); });
     };
     return s;
 }
@@ -105,8 +165,8 @@ template<class T> static Spec spec_ma(int n) {
     s.corr = std::string("frame ") + (cx ? "maC " : "maR ") + std::to_string(n);
     s.win = TW<T>::W; s.mem = n; s.cstride = -1;
     s.make = [n]() {
-        auto f = std::make_shared<MAFilter<T>>(n);
-        return Inst{[f](const double* p, int k, VD& o) { put<T>(o, f->process(mk<T>(p, k))); }, nullptr};
+        return build<MAFilter<T>>([n]() { return std::make_shared<MAFilter<T>>(n); },
+                                  [](MAFilter<T>& f, const double* p, int k, VD& o) { put<T>(o, f.process(mk<T>(p, k))); });
     };
     return s;
 }
@@ -118,8 +178,8 @@ template<class T> static Spec spec_delay(int n) {
     s.win = TW<T>::W; s.mem = std::max(1, n); s.cstride = -1;
     s.corr = std::string("frame ") + (cx ? "delayC " : "delayR ") + toks(base_array<T>(n));
     s.make = [n]() {
-        auto f = std::make_shared<Delay<T>>(n);
-        return Inst{[f](const double* p, int k, VD& o) { put<T>(o, f->process(mk<T>(p, k))); }, nullptr};
+        return build<Delay<T>>([n]() { return std::make_shared<Delay<T>>(n); },
+                               [](Delay<T>& f, const double* p, int k, VD& o) { put<T>(o, f.process(mk<T>(p, k))); });
     };
     return s;
 }
@@ -131,8 +191,8 @@ static Spec spec_delay_init(const arr_real& b) {
     s.mem = std::max(1, b.size()); s.cstride = -1;
     s.corr = "frame delayR " + toks(b);
     s.make = [b]() {
-        auto f = std::make_shared<Delay<real_t>>(b);
-        return Inst{[f](const double* p, int k, VD& o) { put<real_t>(o, f->process(mk<real_t>(p, k))); }, nullptr};
+        return build<Delay<real_t>>([b]() { return std::make_shared<Delay<real_t>>(b); },
+                                    [](Delay<real_t>& f, const double* p, int k, VD& o) { put<real_t>(o, f.process(mk<real_t>(p, k))); });
     };
     return s;
 }
@@ -143,8 +203,8 @@ static Spec spec_median(int n, double init) {
     s.corr = "frame median " + std::to_string(n) + " " + vh::hx(init);
     s.mem = n; s.sig = SIG_MED;
     s.make = [n, init]() {
-        auto f = std::make_shared<MedianFilter>(n, init);
-        return Inst{[f](const double* p, int k, VD& o) { put<real_t>(o, f->process(mk<real_t>(p, k))); }, nullptr};
+        return build<MedianFilter>([n, init]() { return std::make_shared<MedianFilter>(n, init); },
+                                   [](MedianFilter& f, const double* p, int k, VD& o) { put<real_t>(o, f.process(mk<real_t>(p, k))); });
     };
     return s;
 }
@@ -158,8 +218,8 @@ static Spec spec_hilbert(int kind, const arr_real& h, int flen, double tw) {
     s.corr = "frame hilb " + toks(taps);
     s.mem = std::max(1, taps.size() - 1); s.cstride = -1;
     s.make = [kind, h, flen, tw]() {
-        auto f = kind ? std::make_shared<HilbertFilter>(flen, tw) : std::make_shared<HilbertFilter>(h);
-        return Inst{[f](const double* p, int k, VD& o) { put<cmplx_t>(o, f->process(mk<real_t>(p, k))); }, nullptr};
+        return build<HilbertFilter>([kind, h, flen, tw]() { return kind ? std::make_shared<HilbertFilter>(flen, tw) : std::make_shared<HilbertFilter>(h); },
+                                    [](HilbertFilter& f, const double* p, int k, VD& o) { put<cmplx_t>(o, f.process(mk<real_t>(p, k))); });
     };
     return s;
 }
@@ -170,11 +230,12 @@ static Spec spec_tuner(int fs, double freq) {
     s.corr = "frame tuner " + std::to_string(fs) + " " + vh::hx(freq);
     s.win = 2; s.mem = fs <= 64 ? fs : 1;
     s.make = [fs, freq]() {
-        auto f = std::make_shared<Tuner>(fs, freq);
-        return Inst{[f](const double* p, int k, VD& o) { put<cmplx_t>(o, f->process(mk<cmplx_t>(p, k))); }, nullptr};
+        return build<Tuner>([fs, freq]() { return std::make_shared<Tuner>(fs, freq); },
+                            [](Tuner& f, const double* p, int k, VD& o) { put<cmplx_t>(o, f.process(mk<cmplx_t>(p, k))); });
     };
     return s;
 }
+template<class P> struct TagT { using type = P; };
 // resamplers: kind 0 interp, 1 decim, 2 rateconv, 3 resampler wrapper; custom taps `h` or (h empty) the default design
 static int padded_sub(int nh, int m) { return (nh + m - 1) / m; }
 static Spec spec_rs(int kind, int L, int M, const arr_real& h) {
@@ -204,9 +265,22 @@ static Spec spec_rs(int kind, int L, int M, const arr_real& h) {
     const int sub = byp ? 1 : padded_sub(taps.size(), branches);
     s.mem = std::max(1, (kind == 2 || (kind == 3 && mi > 1 && li > 1)) ? (sub - 1 + mi - 1) / mi + 1 : sub - 1);
     s.ratio = double(li) / mi; s.cstride = -2;
-    s.make = [mkr]() {
-        auto f = mkr();
-        return Inst{[f](const double* p, int k, VD& o) { put<real_t>(o, f->process(mk<real_t>(p, k))); }, nullptr};
+    // a frame that is not a multiple of decim_rate() must be rejected before any state change (C08.decim_reject)
+    const int gran = s.gran;
+    auto mk_inst = [=](auto tag) {
+        using P = typename decltype(tag)::type;
+        std::function<void(P&, const double*, int)> bad = nullptr;
+        if (gran > 1) bad = [gran](P& f, const double* p, int k) { f.process(mk<real_t>(p, (k / gran) * gran + 1 + (k % (gran - 1)))); };
+        return build<P>([mkr]() { return std::static_pointer_cast<P>(mkr()); },
+                        [](P& f, const double* p, int k, VD& o) { put<real_t>(o, f.process(mk<real_t>(p, k))); }, nullptr, bad);
+    };
+    s.make = [=]() -> Inst {
+        switch (kind) {
+        case 0: return mk_inst(TagT<FIRInterpolator>());
+        case 1: return mk_inst(TagT<FIRDecimator>());
+        case 2: return mk_inst(TagT<FIRRateConverter>());
+        default: return mk_inst(TagT<FIRResampler>());
+        }
     };
     return s;
 }
@@ -221,11 +295,11 @@ template<class T> static Spec spec_agc(const AgcP& q) {
              vh::hx(q.tr) + " " + vh::hx(q.tf);
     s.win = TW<T>::W; s.mem = q.n; s.sig = SIG_DYN;
     s.make = [q]() {
-        auto f = std::make_shared<Agc>(q.tg, q.mg, q.n, q.tr, q.tf);
-        return Inst{[f](const double* p, int k, VD& o) {
-                        auto r = f->process(mk<T>(p, k));
-                        for (int i = 0; i < k; ++i) { TW<T>::put(o, r.out[i]); o.push_back(r.gain[i]); }
-                    }, nullptr};
+        return build<Agc>([q]() { return std::make_shared<Agc>(q.tg, q.mg, q.n, q.tr, q.tf); },
+                          [](Agc& f, const double* p, int k, VD& o) {
+                              auto r = f.process(mk<T>(p, k));
+                              for (int i = 0; i < k; ++i) { TW<T>::put(o, r.out[i]); o.push_back(r.gain[i]); }
+                          });
     };
     return s;
 }
@@ -242,31 +316,31 @@ static Spec spec_dyn(int kind, const DynP& q) {
         s.corr = "frame comp " + std::to_string(q.fs) + " " + vh::hx(q.T) + " " + std::to_string(q.R) + " " + vh::hx(q.W) + " " + vh::hx(q.ta) + " " + vh::hx(q.tr);
         s.mem = 8;
         s.make = [q]() {
-            auto f = std::make_shared<Compressor>(q.fs, q.T, q.R, q.W, q.ta, q.tr);
-            return Inst{[f](const double* p, int k, VD& o) {
-                            auto r = f->process(mk<real_t>(p, k));
-                            for (int i = 0; i < k; ++i) { o.push_back(r.out[i]); o.push_back(r.gain[i]); }
-                        }, nullptr};
+            return build<Compressor>([q]() { return std::make_shared<Compressor>(q.fs, q.T, q.R, q.W, q.ta, q.tr); },
+                                     [](Compressor& f, const double* p, int k, VD& o) {
+                                         auto r = f.process(mk<real_t>(p, k));
+                                         for (int i = 0; i < k; ++i) { o.push_back(r.out[i]); o.push_back(r.gain[i]); }
+                                     });
         };
     } else if (kind == 1) {
         s.corr = "frame lim " + std::to_string(q.fs) + " " + vh::hx(q.T) + " " + vh::hx(q.W) + " " + vh::hx(q.ta) + " " + vh::hx(q.tr);
         s.mem = 8;
         s.make = [q]() {
-            auto f = std::make_shared<Limiter>(q.fs, q.T, q.W, q.ta, q.tr);
-            return Inst{[f](const double* p, int k, VD& o) {
-                            auto r = f->process(mk<real_t>(p, k));
-                            for (int i = 0; i < k; ++i) { o.push_back(r.out[i]); o.push_back(r.gain[i]); }
-                        }, nullptr};
+            return build<Limiter>([q]() { return std::make_shared<Limiter>(q.fs, q.T, q.W, q.ta, q.tr); },
+                                  [](Limiter& f, const double* p, int k, VD& o) {
+                                      auto r = f.process(mk<real_t>(p, k));
+                                      for (int i = 0; i < k; ++i) { o.push_back(r.out[i]); o.push_back(r.gain[i]); }
+                                  });
         };
     } else {
         s.corr = "frame gate " + std::to_string(q.fs) + " " + vh::hx(q.T) + " " + vh::hx(q.ta) + " " + vh::hx(q.tr) + " " + vh::hx(q.th);
         s.mem = (int)std::min(64.0, std::max(1.0, std::floor(q.th * q.fs)));
         s.make = [q]() {
-            auto f = std::make_shared<NoiseGate>(q.fs, q.T, q.ta, q.tr, q.th);
-            return Inst{[f](const double* p, int k, VD& o) {
-                            auto r = f->process(mk<real_t>(p, k));
-                            for (int i = 0; i < k; ++i) { o.push_back(r.out[i]); o.push_back(r.gain[i]); }
-                        }, nullptr};
+            return build<NoiseGate>([q]() { return std::make_shared<NoiseGate>(q.fs, q.T, q.ta, q.tr, q.th); },
+                                    [](NoiseGate& f, const double* p, int k, VD& o) {
+                                        auto r = f.process(mk<real_t>(p, k));
+                                        for (int i = 0; i < k; ++i) { o.push_back(r.out[i]); o.push_back(r.gain[i]); }
+                                    });
         };
     }
     return s;
@@ -281,12 +355,15 @@ template<class T> static Spec spec_lms(int len, double mu, bool nlms, double lea
     s.corr = std::string("frame lms ") + (cx ? "1 " : "0 ") + (nlms ? "1 " : "0 ") + std::to_string(len) + " " + vh::hx(mu) + " " + vh::hx(leak);
     s.win = 2 * W; s.mem = len; s.sig = SIG_SYS;
     s.make = [=]() {
-        auto f = std::make_shared<LmsFilter<T>>(len, mu, nlms ? LmsType::NLMS : LmsType::LMS, leak);
-        return Inst{[f, W](const double* p, int k, VD& o) {
-                        auto r = f->process(mk<T>(p, k, 2 * W, 0), mk<T>(p, k, 2 * W, W));
-                        for (int i = 0; i < k; ++i) { TW<T>::put(o, r.y[i]); TW<T>::put(o, r.e[i]); }
-                    },
-                    [f](VD& o) { put<T>(o, f->coeffs()); }};
+        using P = LmsFilter<T>;
+        return build<P>([=]() { return std::make_shared<P>(len, mu, nlms ? LmsType::NLMS : LmsType::LMS, leak); },
+                        [W](P& f, const double* p, int k, VD& o) {
+                            auto r = f.process(mk<T>(p, k, 2 * W, 0), mk<T>(p, k, 2 * W, W));
+                            for (int i = 0; i < k; ++i) { TW<T>::put(o, r.y[i]); TW<T>::put(o, r.e[i]); }
+                        },
+                        [](P& f, VD& o) { put<T>(o, f.coeffs()); },
+                        // len(x) != len(d): rejected before any state change
+                        [W](P& f, const double* p, int k) { f.process(mk<T>(p, k, 2 * W, 0), mk<T>(p, k > 1 ? k - 1 : k + 1, 2 * W, W)); });
     };
     return s;
 }
@@ -299,24 +376,35 @@ template<class T> static Spec spec_rls(int len, double lam, double dl) {
     s.corr = std::string("frameR rls ") + (cx ? "1 " : "0 ") + std::to_string(len) + " " + vh::hx(lam) + " " + vh::hx(dl);
     s.win = 2 * W; s.mem = len; s.sig = SIG_SYS;
     s.make = [=]() {
-        auto f = std::make_shared<RlsFilter<T>>(len, lam, dl);
-        return Inst{[f, W](const double* p, int k, VD& o) {
-                        auto r = f->process(mk<T>(p, k, 2 * W, 0), mk<T>(p, k, 2 * W, W));
-                        for (int i = 0; i < k; ++i) { TW<T>::put(o, r.y[i]); TW<T>::put(o, r.e[i]); }
-                    },
-                    [f](VD& o) { put<T>(o, f->coeffs()); }};
+        using P = RlsFilter<T>;
+        return build<P>([=]() { return std::make_shared<P>(len, lam, dl); },
+                        [W](P& f, const double* p, int k, VD& o) {
+                            auto r = f.process(mk<T>(p, k, 2 * W, 0), mk<T>(p, k, 2 * W, W));
+                            for (int i = 0; i < k; ++i) { TW<T>::put(o, r.y[i]); TW<T>::put(o, r.e[i]); }
+                        },
+                        [](P& f, VD& o) { put<T>(o, f.coeffs()); },
+                        [W](P& f, const double* p, int k) { f.process(mk<T>(p, k, 2 * W, 0), mk<T>(p, k > 1 ? k - 1 : k + 1, 2 * W, W)); });
     };
     return s;
 }
 
 // ------------------------------------------------------------------------------------ inputs
+static double g_in_scale = 1.0;   // absolute scale class of the inputs of the scenario in flight
+static int g_zero_runs = 0;       // > 0: every other segment is a run of exact zeros (+0 / -0) of more than this many items
 static VD gen_input(vh::Rng& r, const Spec& s, int nitems) {
     VD v((size_t)nitems * s.win);
     const int w = s.win;
     int i = 0;
+    int segno = 0;
     while (i < nitems) {
-        const int seg = std::min(nitems - i, r.range(0, 3) == 0 ? r.range(1, 8) : r.range(1, std::max(2, nitems / 3 + 1)));
+        int seg = std::min(nitems - i, r.range(0, 3) == 0 ? r.range(1, 8) : r.range(1, std::max(2, nitems / 3 + 1)));
         int kind = r.range(0, 9);
+        if (g_zero_runs > 0) {
+            ++segno;
+            if (segno % 2 == 0) { kind = 0; seg = std::min(nitems - i, g_zero_runs + r.range(1, g_zero_runs + 3)); }
+            else { if (kind == 0) kind = 5; seg = std::min(nitems - i, r.range(1, g_zero_runs + 2)); }
+        }
+        const double zero = (g_zero_runs > 0 && r.coin()) ? -0.0 : 0.0;
         double sc = 1.0;
         switch (s.sig) {
         case SIG_DYN: sc = std::pow(10.0, (-70 + 80 * r.unit()) / 20); break;
@@ -327,19 +415,19 @@ static VD gen_input(vh::Rng& r, const Spec& s, int nitems) {
         for (int k = 0; k < seg; ++k, ++i) {
             for (int c = 0; c < w; ++c) {
                 double x;
-                if (kind == 0) x = 0.0;                                   // silence
+                if (kind == 0) x = zero;                                  // silence
                 else if (kind == 1) x = sc;                               // DC / plateau (ties for the median)
                 else if (kind == 2 && s.sig == SIG_MED) x = std::round(2 * r.gauss()) / 2;   // quantised: many equal values
                 else if (kind == 3) x = (k == 0) ? 8 * sc : 0.0;          // impulse
                 else x = sc * r.gauss();
-                v[(size_t)i * w + c] = x;
+                v[(size_t)i * w + c] = x * g_in_scale;
             }
             if (s.sig == SIG_SYS) {
                 // desired = a short FIR of the input + a little noise (keeps LMS/RLS in their working range)
                 const int W = w / 2;
                 for (int c = 0; c < W; ++c) {
                     const double x0 = v[(size_t)i * w + c], x1 = i > 0 ? v[(size_t)(i - 1) * w + c] : 0.0;
-                    v[(size_t)i * w + W + c] = 0.7 * x0 - 0.3 * x1 + 0.01 * sc * r.gauss();
+                    v[(size_t)i * w + W + c] = 0.7 * x0 - 0.3 * x1 + 0.01 * sc * g_in_scale * r.gauss();
                 }
             }
         }
@@ -557,6 +645,176 @@ static void interleaved(vh::Rng& r, const std::vector<Spec>& specs, int ngran_ea
     out.stat("interleaved_groups");
     out.stat("interleaved_instances", n);
     vh::clear_current();
+}
+
+// ---- object lifetime.  A copy of a processor object (taken from a fresh prototype or mid-stream; by copy-construction, by
+// copy-assignment over another live object, as an element of std::vector<P>(n, obj), by value) is an independent instance that
+// starts from the copied state: it must emit exactly what a separately constructed object emits after the same prefix, whatever
+// its source and its siblings are fed meanwhile, and the source must continue as if it had never been copied.
+static const char* CLONE_MODE[] = {"copy-constructed", "copy-assigned over a live object", "element of vector(n, obj)", "passed by value and moved"};
+static void copies(vh::Rng& r, const Spec& s, int ngran, bool fresh_proto) {
+    ++g_case;
+    const int NC = 4, w = s.win;
+    const int npre = fresh_proto ? 0 : r.range(1, std::max(1, ngran / 2));
+    const VD in = gen_input(r, s, ngran * s.gran);
+    std::vector<VD> z(NC);
+    std::vector<std::vector<int>> zf(NC);
+    for (int m = 0; m < NC; ++m) {
+        const int ng = std::max(1, ngran / 2 + r.range(-ngran / 4, ngran / 4));
+        z[m] = gen_input(r, s, ng * s.gran);
+        zf[m] = random_framing(r, s, ng, 512);
+    }
+    const int njunk = std::min(ngran, 3 * s.mem + 2) * s.gran;
+    const VD junk = gen_input(r, s, njunk);
+    std::vector<int> pre, post = random_framing(r, s, ngran - npre, 512);
+    if (npre > 0) pre = random_framing(r, s, npre, 512);
+    std::vector<int> all = pre;
+    all.insert(all.end(), post.begin(), post.end());
+    const std::string head = "{\"processor\":\"" + s.proc + "\"," + s.js + ",\"mode\":\"copies\",\"copied\":\"" + (fresh_proto ? "fresh prototype" : "mid-stream") +
+                             "\",\"prefix_items\":" + std::to_string(npre * s.gran) + ",\"seed\":" + std::to_string(g_seed) + ",\"case\":" + std::to_string(g_case);
+    vh::set_current("C06:" + s.proc + ":copy", head + "}");
+    RunRes ga;
+    std::vector<RunRes> gb(NC);
+    try {
+        Inst A = s.make();
+        size_t pos = 0;
+        VD dump;
+        for (int sz : pre) { A.run(in.data() + pos * w, sz, ga.y); pos += sz; }
+        std::vector<Inst> B;
+        for (int m = 0; m < NC; ++m) B.push_back(A.clone(m, junk.data(), njunk));
+        {   // a copy that processes other data and is destroyed
+            Inst D = A.clone(r.range(0, 3), junk.data(), njunk);
+            D.run(junk.data(), njunk, dump);
+        }
+        std::vector<size_t> fi(NC + 1, 0), ps(NC + 1, 0);
+        int live = NC + 1;
+        while (live > 0) {
+            const int i = r.range(0, NC);
+            const std::vector<int>& fr = i == NC ? post : zf[i];
+            if (fi[i] >= fr.size()) continue;
+            const int sz = fr[fi[i]++];
+            if (i == NC) { A.run(in.data() + pos * w, sz, ga.y); pos += sz; }
+            else {
+                try { B[i].run(z[i].data() + ps[i] * w, sz, gb[i].y); } catch (const std::exception& e) { gb[i].threw = true; gb[i].what = e.what(); }
+                ps[i] += sz;
+            }
+            if (fi[i] >= fr.size()) --live;
+        }
+        if (A.fin) A.fin(ga.y);
+        for (int m = 0; m < NC; ++m) if (B[m].fin && !gb[m].threw) B[m].fin(gb[m].y);
+    } catch (const std::exception& e) { ga.threw = true; ga.what = e.what(); }
+    vh::clear_current();
+    out.stat("copies_" + s.proc);
+    // the original: one separately constructed object on the same framing
+    const RunRes ea = run_frames(s, in, all);
+    if (ea.threw) { out.stat("whole_stream_call_threw_" + s.proc); return; }
+    ++out.n_oracle;
+    if (ga.threw || !same(ea.y, ga.y)) {
+        std::string wj = witness(s, in, all, ea, ga, "copies");
+        wj.insert(1, "\"object\":\"the original, after " + std::string(fresh_proto ? "being used as prototype" : "being copied mid-stream") + "\",\"prefix_items\":" + std::to_string(npre * s.gran) + ",");
+        out.fail("C06:" + s.proc + ":copy", wj);
+    }
+    // the copies: a separately constructed object fed the same prefix, then the copy's own frames
+    for (int m = 0; m < NC && !ga.threw; ++m) {
+        RunRes eb;
+        try {
+            Inst S = s.make();
+            VD dump;
+            size_t pos = 0;
+            for (int sz : pre) { S.run(in.data() + pos * w, sz, dump); pos += sz; }
+            pos = 0;
+            for (int sz : zf[m]) { S.run(z[m].data() + pos * w, sz, eb.y); pos += sz; }
+            if (S.fin) S.fin(eb.y);
+        } catch (const std::exception& e) { eb.threw = true; eb.what = e.what(); }
+        if (eb.threw) { out.stat("whole_stream_call_threw_" + s.proc); continue; }
+        ++out.n_oracle;
+        if (gb[m].threw || !same(eb.y, gb[m].y)) {
+            std::string wj = witness(s, z[m], zf[m], eb, gb[m], "copies");
+            wj.insert(1, "\"object\":\"the copy (" + std::string(CLONE_MODE[m]) + (fresh_proto ? ") of a fresh prototype" : ") taken mid-stream") + "\",\"prefix_items\":" +
+                             std::to_string(npre * s.gran) + ",\"prefix_frames\":" + (pre.size() <= 32 ? vh::jints(pre) : "\"" + std::to_string(pre.size()) + " frames\"") + ",");
+            out.fail("C06:" + s.proc + ":copy", wj);
+        }
+    }
+}
+
+// ---- large single calls after smaller ones (internal buffers that grow, block sizes of 2^14 / 2^16 / 2^17 / 49152)
+static void large_frames(vh::Rng& r, const Spec& s0, const std::vector<int>& pattern, bool corr) {
+    ++g_case;
+    Spec s = s0;
+    s.js += ",\"scenario\":\"large frames after small ones\"";
+    std::vector<int> sizes;
+    long long nitems = 0;
+    for (int pz : pattern) { const int g = std::max(1, pz / s.gran); sizes.push_back(g * s.gran); nitems += g * s.gran; }
+    const VD in = gen_input(r, s, (int)nitems);
+    vh::set_current("C06:" + s.proc + ":framing", "{\"processor\":\"" + s.proc + "\"," + s.js + ",\"mode\":\"large-frames\",\"frames\":" + vh::jints(sizes) +
+                                                      ",\"seed\":" + std::to_string(g_seed) + ",\"case\":" + std::to_string(g_case) + "}");
+    const RunRes whole = run_frames(s, in, {(int)nitems});
+    check_framing(s, in, whole, sizes, "large-frames");
+    if (corr && !whole.threw) {
+        const RunRes fr = run_frames(s, in, sizes);
+        if (!fr.threw) emit_corr(s, in, sizes, fr.y);
+    }
+    out.stat("large_frames_" + s.proc);
+    for (int sz : sizes) out.stat(sz > 131072 ? "frame_items_gt_2^17" : sz > 65536 ? "frame_items_gt_2^16" : sz > 16384 ? "frame_items_gt_2^14" : "frame_items_le_2^14");
+    vh::clear_current();
+}
+
+// ---- inputs at an absolute scale class and / or with runs of exact zeros longer than the memory of the processor
+static void special_inputs(vh::Rng& r, const Spec& s0, double scale, bool zero_runs, int ngran, bool corr) {
+    Spec s = s0;
+    char b[64];
+    std::snprintf(b, sizeof b, "%g", scale);
+    s.js += std::string(",\"input_scale\":") + b + ",\"zero_runs_longer_than_memory\":" + (zero_runs ? "true" : "false");
+    g_in_scale = scale;
+    g_zero_runs = zero_runs ? (s.mem + 1) * s.gran + 1 : 0;
+    random_framings(r, s, ngran, 2, corr);
+    g_in_scale = 1.0;
+    g_zero_runs = 0;
+    out.stat(std::string("special_inputs_scale_") + b);
+    if (zero_runs) out.stat("special_inputs_zero_runs");
+}
+
+// ---- rejected calls inside a history: a call that throws must leave no trace
+static void failed_calls(vh::Rng& r, const Spec& s0, int ngran) {
+    Spec s = s0;
+    s.js += ",\"scenario\":\"rejected calls between the frames\"";
+    const int nitems = ngran * s.gran, w = s.win;
+    if (nitems < s.gran + 3) return;
+    ++g_case;
+    const VD in = gen_input(r, s, nitems);
+    const std::vector<int> sizes = random_framing(r, s, ngran, 64);
+    vh::set_current("C06:" + s.proc + ":failed-call", "{\"processor\":\"" + s.proc + "\"," + s.js + ",\"seed\":" + std::to_string(g_seed) + ",\"case\":" + std::to_string(g_case) + "}");
+    const RunRes whole = run_frames(s, in, {nitems});
+    RunRes fr;
+    int nbad = 0, accepted = 0;
+    try {
+        Inst p = s.make();
+        if (!p.bad) { vh::clear_current(); return; }
+        size_t pos = 0;
+        auto bad = [&]() {
+            const int k = r.range(0, std::min(nitems - s.gran - 1, 3 * s.gran + 5));
+            ++nbad;
+            if (!p.bad(in.data(), k)) ++accepted;
+        };
+        bad();
+        for (int sz : sizes) {
+            p.run(in.data() + pos * w, sz, fr.y);
+            pos += sz;
+            if (r.coin()) bad();
+        }
+        bad();
+        if (p.fin) p.fin(fr.y);
+    } catch (const std::exception& e) { fr.threw = true; fr.what = e.what(); }
+    vh::clear_current();
+    out.stat("failed_calls_" + s.proc, nbad);
+    if (accepted) out.stat("invalid_call_accepted_" + s.proc, accepted);
+    if (whole.threw) { out.stat("whole_stream_call_threw_" + s.proc); return; }
+    ++out.n_oracle;
+    if (fr.threw || !same(whole.y, fr.y)) {
+        std::string wj = witness(s, in, sizes, whole, fr, "failed-calls");
+        wj.insert(1, "\"rejected_calls\":" + std::to_string(nbad) + ",\"invalid_calls_accepted\":" + std::to_string(accepted) + ",");
+        out.fail("C06:" + s.proc + ":failed-call", wj);
+    }
 }
 
 // ------------------------------------------------------------------------------------ parameter generators
@@ -846,6 +1104,99 @@ int main(int argc, char** argv) {
             int ng = rng.range(100, 1500);
             if (w >= 26) ng = std::min(ng, 200000 / (s.mem * s.mem + 20) + 50);
             interleaved(rng, {s, s, s}, ng);
+        }
+        // ---------------- object lifetime: copies of every processor, from a fresh prototype and mid-stream
+        {
+            const int reps = TH ? 8 : 2;
+            for (int rep = 0; rep < reps; ++rep)
+                for (int w = 0; w < NK; ++w) {
+                    const Spec s = rnd_spec(w);
+                    int ng = rng.range(40, TH ? 3000 : 700);
+                    if (rep % 2 == 1) ng = std::min(ng, 4 * s.mem + rng.range(3, 40));   // streams of a few memory lengths: the copied history matters everywhere
+                    if (w >= 26) ng = std::min(ng, 100000 / (s.mem * s.mem + 20) + 30);
+                    if (s.ratio > 1) ng = std::min(ng, std::max(20, int(200000 / s.ratio)));
+                    copies(rng, s, std::max(4, ng), (w + rep + sd) % 2 == 0);
+                }
+        }
+        // ---------------- large frames after small ones: 20000, 70000, 140000 samples (and 2^k, 2^k + 1, k * 49152 in the thorough tier)
+        {
+            auto bounded_spec = [&](int w) {
+                for (int t = 0; t < 50; ++t) {
+                    const Spec s = rnd_spec(w);
+                    if (s.ratio <= 12 && !(w >= 26 && s.mem > 6) && !(w == 8 && s.mem > 15)) return s;
+                }
+                return rnd_spec(w);
+            };
+            std::vector<std::vector<int>> pats = {{137, 20000, 1, 70000, 513, 140000, 7}};
+            if (TH) {
+                pats.push_back({5000, 30000, 25000});
+                pats.push_back({100, 20000, 39900});
+                pats.push_back({1, 16385, 32769, 65537, 131073});
+                pats.push_back({64, 65536, 3, 131072, 65536});
+                pats.push_back({1000, 49152, 98304, 5, 147456});
+                pats.push_back({140000, 70000, 20000, 33});
+                pats.push_back({3, 16384, 16385, 2, 140000});
+            }
+            for (size_t pi = 0; pi < pats.size(); ++pi)
+                for (int w = 0; w < NK; ++w) large_frames(rng, bounded_spec(w), pats[pi], false);
+            // the same class through the model (bounded volume): a 20000-sample frame after a short one
+            static const int cw[] = {0, 12, 4, 13, 6, 14, 2};
+            for (int j = 0; j < (TH ? 7 : 3); ++j) {
+                for (int t = 0; t < 50; ++t) {
+                    const Spec s = rnd_spec(cw[(j + sd) % 7]);
+                    if (s.ratio > 3 || s.mem > 40) continue;
+                    large_frames(rng, s, {300, 20000, 700}, true);
+                    break;
+                }
+            }
+        }
+        // ---------------- absolute scale classes of inputs and coefficients, exact-zero runs longer than the memory
+        {
+            static const double SC[] = {1e-300, 1e-17, 0x1p-60, 1e-8, 1.0, 1e8, 0x1p60, 1e100};
+            auto scaled = [](arr_real h, double f) { for (int i = 0; i < h.size(); ++i) h[i] *= f; return h; };
+            auto scaledc = [](arr_cmplx h, double f) { for (int i = 0; i < h.size(); ++i) { h[i].re *= f; h[i].im *= f; } return h; };
+            int c = sd;
+            const int reps = TH ? 4 : 1;
+            for (int rep = 0; rep < reps; ++rep)
+                for (int i = 0; i < 8; ++i, ++c) {
+                    const double sc = SC[i];
+                    // coefficient vectors at the class scale, inputs at a class that keeps the products inside the double range
+                    double sx = SC[(c * 3 + rep) % 8];
+                    if (std::log10(sc) + std::log10(sx) < -300.5 || std::log10(sc) + std::log10(sx) > 250) sx = 1.0;
+                    const int nh = rng.range(0, 1) ? edge[rng.range(0, 20)] : rng.range(2, 200);
+                    const int ng = rng.range(200, TH ? 20000 : 3000);
+                    const bool corr = !TH || rep == 0;
+                    const bool zr = (c % 2) == 0;
+                    special_inputs(rng, spec_fir<real_t>(scaled(taps_real(rng, nh), sc)), sx, zr, ng, corr && nh <= 64);
+                    special_inputs(rng, spec_fir<cmplx_t>(scaledc(taps_cmplx(rng, nh), sc)), sx, !zr, ng, false);
+                    special_inputs(rng, spec_fft<real_t>(scaled(taps_real(rng, nh), sc)), sx, !zr, ng, false);
+                    special_inputs(rng, spec_fft<cmplx_t>(scaledc(taps_cmplx(rng, nh), sc)), sx, zr, ng, corr && nh <= 32);
+                    const int L = rng.range(1, 8), M = rng.range(1, 8);
+                    const arr_real hm = scaled(taps_multirate(rng, std::max(L, M) * rng.range(2, 6) + rng.range(0, 3)), sc);
+                    special_inputs(rng, spec_rs(0, L, 1, hm), sx, zr, ng, corr && i % 2 == 0);
+                    special_inputs(rng, spec_rs(1, 1, M, hm), sx, !zr, ng, corr && i % 2 == 1);
+                    special_inputs(rng, spec_rs(2, L, M, hm), sx, zr, ng, false);
+                    special_inputs(rng, spec_rs(3, L, M, hm), sx, !zr, ng, false);
+                    // processors without coefficient vectors: the input at the class scale
+                    for (int w : {4, 5, 6, 7, 8, 9, 10, 11, 17, 18, 19, 20, 21, 22, 23, 24, 25, 26, 27}) {
+                        if (!TH && (w + c) % 3 != 0) continue;
+                        const Spec s = rnd_spec(w);
+                        int g2 = ng;
+                        if (w >= 26) g2 = std::min(g2, 100000 / (s.mem * s.mem + 20) + 30);
+                        special_inputs(rng, s, sc, (w + c) % 2 == 0, g2, false);
+                    }
+                }
+        }
+        // ---------------- rejected calls inside a history (frame not a multiple of decim_rate(); len(x) != len(d))
+        {
+            const int reps = TH ? 10 : 2;
+            for (int rep = 0; rep < reps; ++rep)
+                for (int w : {13, 14, 15, 16, 22, 23, 24, 25, 26, 27}) {
+                    const Spec s = rnd_spec(w);
+                    int ng = rng.range(5, TH ? 2000 : 400);
+                    if (w >= 26) ng = std::min(ng, 100000 / (s.mem * s.mem + 20) + 30);
+                    failed_calls(rng, s, ng);
+                }
         }
     }
     out.stat("distinct_nontrivial", out.n_oracle);
